@@ -242,7 +242,13 @@ class IRDLFunctions(InterpreterFunctions):
                             entry.sym_name.data,
                             (TypeAttribute, ParametrizedAttribute),
                             dict(ParametrizedAttribute.__dict__)
-                            | {"name": entry.qualified_name},
+                            | {
+                                "name": entry.qualified_name,
+                                # The copied dataclass methods of `ParametrizedAttribute`
+                                # compare no field: compare the parameters instead.
+                                "__eq__": _parametrized_attribute_eq,
+                                "__hash__": _parametrized_attribute_hash,
+                            },
                         )
                     )
 
@@ -256,6 +262,14 @@ class IRDLFunctions(InterpreterFunctions):
         )
         interpreter.run_ssacfg_region(op.body, ())
         return ()
+
+
+def _parametrized_attribute_eq(self: ParametrizedAttribute, other: object) -> bool:
+    return type(self) is type(other) and self.parameters == other.parameters  # pyright: ignore[reportAttributeAccessIssue]
+
+
+def _parametrized_attribute_hash(self: ParametrizedAttribute) -> int:
+    return hash((type(self), self.parameters))
 
 
 def make_dialect(op: irdl.DialectOp) -> Dialect:
